@@ -12,7 +12,7 @@
 From Coq Require Import ZArith String Bool Arith DecimalString List.
 From GM Require Import Base.Res.
 Import ListNotations.
-Open Scope Z_scope.
+Local Open Scope Z_scope.
 
 (* ------------------------------------------------------------------ data *)
 (* one parsed atom line; a_pay stands for the coordinates and velocities (opaque payload) *)
